@@ -82,6 +82,180 @@ unsafe extern "C" fn c_free(p: *mut c_void) {
     }
 }
 
+/// A parse that the progress callback cancels at its `cancel_at`-th check (1-based); `None` if cancelled.
+fn cancellable_parse(parser: &mut Parser, text: &[u8], old: Option<&Tree>, cancel_at: u32) -> Option<Tree> {
+    let mut calls = 0u32;
+    let mut cb = |_: &tree_sitter::ParseState| {
+        calls += 1;
+        if calls >= cancel_at {
+            std::ops::ControlFlow::Break(())
+        } else {
+            std::ops::ControlFlow::Continue(())
+        }
+    };
+    let opts = tree_sitter::ParseOptions::new().progress_callback(&mut cb);
+    let len = text.len();
+    parser.parse_with_options(&mut |i, _| if i < len { &text[i..] } else { &[] }, old, Some(opts))
+}
+
+/// Cancelled (re-)parses, the clause "every shared node is freed exactly once after the last handle goes
+/// away" under cancellation: a document of some hundred items, a copy edited in many places, then re-parses
+/// WITH THE COPY AS OLD TREE cancelled at the 1st, 2nd, 3rd … progress check (the parser holds a lookahead
+/// at that moment — a freshly lexed token or a subtree REUSED from the old tree, i.e. a node shared with
+/// every copy), each followed by `reset` or by resuming the parse; every intermediate state is dumped and
+/// judged; at the end parser and handles are dropped in turn and the allocator must be back at its level
+/// (`histend`).  Returns the number of steps.
+fn cancel_history(out: &mut impl Write, cid: &str, lang_id: &str, b: &zoo::Built, seed: u64) -> usize {
+    let mut rng = Rng::new(seed);
+    let live0 = LIVE.load(Ordering::SeqCst);
+    writeln!(out, "spec {cid} cancel {lang_id} {seed}").unwrap();
+    out.flush().unwrap();
+    let gg = gen::GrammarGen::new(&b.grammar_json, zoo::read_zoo_file(lang_id, "samples.json").as_deref());
+    // a few hundred items: the same short sentences over and over (more than 100 parse operations
+    // between two progress checks are needed for a check to happen at all)
+    let mut text: Vec<u8> = Vec::new();
+    let units: Vec<Vec<u8>> = (0..4).map(|_| { let t = gg.sentence(&mut rng, 3); gg.render(&t, &mut rng).0 }).collect();
+    let reps = rng.range(110, 220);
+    for i in 0..reps {
+        text.extend_from_slice(&units[i % units.len()]);
+        text.push(if i % 7 == 0 { b'\n' } else { b' ' });
+    }
+    let mut steps = 0usize;
+    {
+        let mut parser = Parser::new();
+        parser.set_language(&b.language).unwrap();
+        let Some(t0) = progress_parse(&mut parser, &text, None) else {
+            writeln!(out, "histend {cid} live_delta=0 cancels=0 note=unparsed").unwrap();
+            return 0;
+        };
+        let mut fam = Fam { trees: vec![Some(t0)], texts: vec![text.clone()], dirty: vec![false] };
+        writeln!(out, "case {cid} mode=persist").unwrap();
+        emit_state(out, &fam);
+        writeln!(out, "run").unwrap();
+        steps += 1;
+        // copy, then many small edits of the copy
+        let c = fam.trees[0].as_ref().unwrap().clone();
+        fam.trees.push(Some(c));
+        fam.texts.push(text.clone());
+        fam.dirty.push(false);
+        writeln!(out, "op copy 0 1").unwrap();
+        emit_state(out, &fam);
+        writeln!(out, "run").unwrap();
+        steps += 1;
+        let nedits = rng.range(5, 40);
+        for _ in 0..nedits {
+            let cur = fam.texts[1].clone();
+            let alpha = alphabet_for(&cur);
+            let refs: Vec<&[u8]> = alpha.iter().map(|v| v.as_slice()).collect();
+            let te = random_edit(&mut rng, &cur, &boundaries(&cur), &refs);
+            let new_text = te.apply(&cur);
+            let ie = te.input_edit(&cur, &new_text);
+            fam.trees[1].as_mut().unwrap().edit(&ie);
+            fam.texts[1] = new_text;
+            fam.dirty[1] = true;
+        }
+        // one dumped state after all edits (no per-edit model prediction: `multi` is not an edit the driver parses)
+        writeln!(out, "op edit 1 multi {nedits}").unwrap();
+        emit_state(out, &fam);
+        writeln!(out, "run").unwrap();
+        steps += 1;
+        // cancelled re-parses with the edited copy as old tree
+        let new_text = fam.texts[1].clone();
+        let mut cancels = 0usize;
+        let mut k = 1u32;
+        while k <= 40 {
+            let old = fam.trees[1].as_ref().unwrap();
+            match cancellable_parse(&mut parser, &new_text, Some(old), k) {
+                Some(t) => {
+                    // the parse needs fewer than k checks: finished
+                    let new = fam.trees.len();
+                    fam.trees.push(Some(t));
+                    fam.texts.push(new_text.clone());
+                    fam.dirty.push(false);
+                    writeln!(out, "op reparse 1 {new}").unwrap();
+                    emit_state(out, &fam);
+                    writeln!(out, "run").unwrap();
+                    steps += 1;
+                    break;
+                }
+                None => {
+                    cancels += 1;
+                    // nothing observable through any handle may have changed
+                    writeln!(out, "op query 1").unwrap();
+                    emit_state(out, &fam);
+                    writeln!(out, "run").unwrap();
+                    steps += 1;
+                    if rng.chance(1, 2) {
+                        parser.reset();
+                        // the parser gave up what it held: a fresh snapshot for the next comparison
+                        writeln!(out, "op query 1").unwrap();
+                        emit_state(out, &fam);
+                        writeln!(out, "run").unwrap();
+                        steps += 1;
+                    } else {
+                        // resume: same arguments, no cancellation
+                        let old = fam.trees[1].as_ref().unwrap();
+                        if let Some(t) = progress_parse(&mut parser, &new_text, Some(old)) {
+                            let new = fam.trees.len();
+                            fam.trees.push(Some(t));
+                            fam.texts.push(new_text.clone());
+                            fam.dirty.push(false);
+                            writeln!(out, "op reparse 1 {new}").unwrap();
+                            emit_state(out, &fam);
+                            writeln!(out, "run").unwrap();
+                            steps += 1;
+                            if fam.trees.len() > 5 {
+                                let h = fam.trees.len() - 2;
+                                fam.trees[h] = None;
+                                writeln!(out, "op delete {h}").unwrap();
+                                emit_state(out, &fam);
+                                writeln!(out, "run").unwrap();
+                                steps += 1;
+                            }
+                        }
+                    }
+                }
+            }
+            k += if k < 6 { 1 } else { rng.range(1, 5) as u32 };
+        }
+        // a last cancelled parse that is neither reset nor resumed: the parser is dropped in that state
+        if rng.chance(1, 2) {
+            let old = fam.trees[1].as_ref().unwrap();
+            if cancellable_parse(&mut parser, &new_text, Some(old), 1 + rng.below(3) as u32).is_none() {
+                cancels += 1;
+            }
+        }
+        // drop in turn: parser first or last, handles in either order
+        let parser_first = rng.chance(1, 2);
+        if parser_first {
+            drop(parser);
+            writeln!(out, "op query 0").unwrap();
+            emit_state(out, &fam);
+            writeln!(out, "run").unwrap();
+            steps += 1;
+            let order: Vec<usize> = if rng.chance(1, 2) { (0..fam.trees.len()).collect() } else { (0..fam.trees.len()).rev().collect() };
+            for h in order {
+                if fam.trees[h].is_some() {
+                    fam.trees[h] = None;
+                    writeln!(out, "op delete {h}").unwrap();
+                    emit_state(out, &fam);
+                    writeln!(out, "run").unwrap();
+                    steps += 1;
+                }
+            }
+        } else {
+            drop(fam);
+            drop(parser);
+        }
+        writeln!(out, "cancels {cid} {cancels}").unwrap();
+    }
+    drop(gg);
+    let delta = LIVE.load(Ordering::SeqCst) - live0;
+    writeln!(out, "histend {cid} live_delta={delta}").unwrap();
+    out.flush().unwrap();
+    steps
+}
+
 fn progress_parse(parser: &mut Parser, text: &[u8], old: Option<&Tree>) -> Option<Tree> {
     // bounded inputs (< 4 KiB); the parser is additionally guarded by a progress callback
     let mut calls = 0u32;
@@ -286,6 +460,7 @@ fn gen_doc(b: &zoo::Built, id: &str, rng: &mut Rng) -> Vec<u8> {
 
 /// One sequential history; returns number of steps emitted.
 fn seq_history(out: &mut impl Write, cid: &str, lang_id: &str, b: &zoo::Built, persist: bool, seed: u64, nops: usize, kinds: &mut [usize; 7]) -> usize {
+    let live0 = LIVE.load(Ordering::SeqCst);
     let mut rng = Rng::new(seed);
     // `role` histories (mode suffix "+role") prefer edits that change a neighbouring token's role
     let role = lang_id == "c08role";
@@ -432,6 +607,8 @@ fn seq_history(out: &mut impl Write, cid: &str, lang_id: &str, b: &zoo::Built, p
     }
     drop(fam);
     drop(shared_parser);
+    // every history ends with nothing live: allocator back at the level it started from
+    writeln!(out, "histend {cid} live_delta={}", LIVE.load(Ordering::SeqCst) - live0).unwrap();
     steps
 }
 
@@ -564,6 +741,11 @@ fn main() {
             let n = [2, 3, 4, 8, 16][i % 5];
             specs.push(format!("thr {lang} {} {n} {}", rng.next() % 1_000_000_007, rng.range(10, if thorough { 200 } else { 60 })));
         }
+        // cancelled re-parses with an old tree, then reset / resume, then everything dropped (wave 7)
+        for i in 0..(if thorough { 40 } else { 6 }) {
+            let lang = ["stmt", "lst", "c08blk", "arith", "c08scan", "jsonish"][i % 6];
+            specs.push(format!("cancel {lang} {}", rng.next() % 1_000_000_007));
+        }
         // heap leaves at breakdown positions, both delete orders (wave 6)
         for i in 0..(if thorough { 60 } else { 12 }) {
             let mode = if i % 3 == 2 { "persist" } else { "fresh" };
@@ -581,11 +763,16 @@ fn main() {
     for (i, line) in specs.iter().enumerate() {
         let f: Vec<&str> = line.split_whitespace().collect();
         // tolerate a leading case id (replay passes the ops `spec` payload)
-        let f: Vec<&str> = if f.len() >= 2 && (f[1] == "seq" || f[1] == "thr") { f[1..].to_vec() } else { f };
+        let f: Vec<&str> = if f.len() >= 2 && (f[1] == "seq" || f[1] == "thr" || f[1] == "cancel") { f[1..].to_vec() } else { f };
         match f.as_slice() {
             ["seq", lang, mode, seed, nops] => {
                 if let Some(b) = get(lang) {
                     steps += seq_history(&mut out, &format!("q{i}"), lang, &b, *mode == "persist", seed.parse().unwrap(), nops.parse().unwrap(), &mut kinds);
+                }
+            }
+            ["cancel", lang, seed] => {
+                if let Some(b) = get(lang) {
+                    steps += cancel_history(&mut out, &format!("k{i}"), lang, &b, seed.parse().unwrap());
                 }
             }
             ["thr", lang, seed, n, nops] => {
